@@ -243,6 +243,7 @@ class Calibrator:
       if output_tensor_idx != -1:
         output_tensor = subgraph_tensors[output_tensor_idx]
         scope += tfl_flatbuffer_utils.get_tensor_name(output_tensor)
+        scope += ";"  # Split names (same scope string as ParamsGenerator).
     return scope
 
   # TODO: b/354224138 - Remove code duplication between calibrate and
